@@ -48,7 +48,7 @@ pub struct Case {
     #[serde(default)]
     pub symlinked: Option<usize>,
     pub zod: bool,
-    /// that many extra source files, one command each, spread over directories of depth 0..3
+    /// that many extra source files, one command each, spread over directories of depth 0..3 and one of depth 10
     #[serde(default)]
     pub many: usize,
     /// one more file with two commands whose camelCase names coincide
@@ -85,7 +85,7 @@ impl Case {
             files.push((POSITIONS[*pos].to_string(), s));
         }
         for i in 0..self.many {
-            let dir = ["src", "src/mods", "src/mods/deep", "src/mods/deep/er"][i % 4];
+            let dir = ["src", "src/mods", "src/mods/deep", "src/mods/deep/er", "src/l1/l2/l3/l4/l5/l6/l7/l8/l9"][i % 5];
             let name = format!("many_{}", i);
             files.push((format!("{}/m{:02}.rs", dir, i), format!("#[tauri::command]\npub fn {}(a: i32) -> i32 {{ a }}\npub fn helper_{}() {{}}\n", name, i)));
             expected.insert(name);
